@@ -256,7 +256,12 @@ func c04Gen() *rapid.Generator[c04Case] {
 		case 1, 2: // deep nesting (up to 90 levels)
 			maxNodes, maxDepth = 200, 90
 		}
-		f := genForest(forestParams{maxNodes: maxNodes, maxDepth: maxDepth, names: names, oneRoot: format == "toml" || entry == "root"}).Draw(t, "forest")
+		var f model.Forest
+		if maxDepth > 10 {
+			f = genDeepForest(names, format == "toml" || entry == "root").Draw(t, "deepForest")
+		} else {
+			f = genForest(forestParams{maxNodes: maxNodes, maxDepth: maxDepth, names: names, oneRoot: format == "toml" || entry == "root"}).Draw(t, "forest")
+		}
 		return c04Case{Forest: f, Format: format, Entry: entry}
 	})
 }
